@@ -11,11 +11,14 @@ injected semantic error.  Pipeline per (module, option set):
       re-read as C++ (g++ -fsyntax-only);
   (c) harness/dumpdescr.c linked against the emitted archive -> descriptor table
       as Gallina terms -> Gen_Descr_<n>.v -> coqc (obligation wf_descr_all = true).
+Round 2: a module may consist of several input files (mod["files"], command-line order); fileset_oracle() evaluates the
+emitted file set, site_types() reads the specialization index of every instantiation site out of the generated headers.
 """
 import os, re, subprocess, shutil, json, hashlib
 from concurrent.futures import ThreadPoolExecutor
 from vlib import *
 import modgen, widegen
+import c10_regions
 
 STRICT = "-std=c99 -Wall -Werror=implicit-function-declaration -Werror=incompatible-pointer-types"
 ALL_OPTS = ["-fcompound-names", "-fwide-types", "-findirect-choice", "-fno-constraints", "-no-gen-PER", "-no-gen-OER", "-fincludes-quoted"]
@@ -232,6 +235,7 @@ def corpus(rng, tier):
         m["origin"], m["expect"] = "widegen", "valid"
         mods.append(m)
     mods += special_modules()
+    mods += c10_regions.regions(rng, tier)
     mods += invalid_modules()
     k = 0
     for i in range(ninj * 3):
@@ -355,9 +359,10 @@ def job_dir(root, mod, oi):
 
 def run_asn1c(asn1c, skel, mod, opts, d):
     os.makedirs(d, exist_ok=True)
-    fn = mod["name"] + ".asn1"
-    open(os.path.join(d, fn), "w").write(mod["text"])
-    rc, out, err = run([asn1c, "-S", skel, "-pdu=all"] + list(opts) + [fn], d, timeout=120)
+    files = mod.get("files") or [(mod["name"] + ".asn1", mod["text"])]
+    for fn, text in files:              # several input files: named on the command line in the order of the list
+        open(os.path.join(d, fn), "w").write(text)
+    rc, out, err = run([asn1c, "-S", skel, "-pdu=all"] + list(opts) + [fn for fn, _ in files], d, timeout=120)
     return rc, out, err
 
 
@@ -408,6 +413,63 @@ def seed_objects(job, d):
     return n
 
 
+SYS_HEADERS = {"stdio.h", "stdlib.h", "string.h", "stddef.h", "stdint.h", "inttypes.h", "errno.h", "assert.h", "limits.h", "stdarg.h", "time.h", "math.h",
+               "float.h", "ctype.h", "sys/types.h", "netinet/in.h", "unistd.h", "sysexits.h", "sys/time.h", "windows.h", "malloc.h", "alloca.h"}
+
+
+def fileset_oracle(d, stderr, skel=None):
+    """the property clause "the emitted sources together with the skeleton files compile and link", evaluated on the file
+    set itself (independent of any model and of the C compiler's patience): nothing is written twice, every file asn1c
+    says it compiled exists, every #include of an emitted file names a file of the directory (or a system header), every
+    source the emitted makefile lists exists.  -> (stems in writing order, [problem strings])"""
+    written = re.findall(r"^Compiled (\S+)$", stderr, flags=re.M)
+    stems = [w[:-2] for w in written if w.endswith(".c")]
+    probs = []
+    seen = set()
+    for w in written:
+        if w in seen:
+            probs.append("written-twice:%s" % w)
+        seen.add(w)
+        if not os.path.exists(os.path.join(d, w)):
+            probs.append("missing-output:%s" % w)
+    have = set(os.listdir(d))
+    if skel:
+        for w in sorted(seen):
+            if os.path.exists(os.path.join(skel, w)):
+                probs.append("shadows-skeleton:%s" % w)          # a generated file took the name of a skeleton file
+    for w in sorted(seen | {"pdu_collection.c"}):
+        path = os.path.join(d, w)
+        if not os.path.exists(path):
+            continue
+        for inc in re.findall(r'^\s*#\s*include\s*[<"]([^>"]+)[>"]', open(path, errors="replace").read(), flags=re.M):
+            if inc not in have and inc not in SYS_HEADERS:
+                probs.append("missing-include:%s includes %s" % (w, inc))
+    mk = os.path.join(d, "Makefile.am.libasncodec")
+    if os.path.exists(mk):
+        txt = open(mk).read().replace("\\\n", " ")
+        for var in ("ASN_MODULE_SRCS", "ASN_MODULE_HDRS"):
+            m = re.search(r"^%s=(.*)$" % var, txt, flags=re.M)
+            for f in (m.group(1).split() if m else []):
+                if f not in have:
+                    probs.append("missing-source:%s lists %s" % (var, f))
+    return stems, sorted(set(probs))[:12]
+
+
+SITE_RE = re.compile(r"^\s*(?:struct\s+)?(\w+?)_(\d+)P(\d+)(?:_t)?\s*\*?\s*(\w+);", flags=re.M)
+
+
+def site_types(d, mod):
+    """the C type of every instantiation site of the module: {(carrier, member): (template C name, line, specialization index)}"""
+    out = {}
+    for carrier in sorted({s["carrier"] for s in mod.get("sites", [])}):
+        path = os.path.join(d, carrier + ".h")
+        if not os.path.exists(path):
+            continue
+        for m in SITE_RE.finditer(open(path).read()):
+            out["%s.%s" % (carrier, m.group(4))] = (m.group(1), int(m.group(2)), int(m.group(3)))
+    return out
+
+
 def build_job(job):
     try:
         return build_job1(job)
@@ -423,6 +485,10 @@ def build_job1(job):
     t0 = time.time()
     rc, out, err = run_asn1c(job["asn1c"], job["skel"], mod, opts, d)
     job.update(rc=rc, stdout=out[-3000:], stderr=err[-3000:], t_asn1c=time.time() - t0)
+    if rc == 0:
+        job["stems"], job["fileset"] = fileset_oracle(d, err, job["skel"])
+        if mod.get("sites"):
+            job["site_types"] = site_types(d, mod)
     if rc != 0 or job.get("only_asn1c"):
         return job
     if not os.path.exists(os.path.join(d, "converter-example.mk")):
